@@ -44,7 +44,9 @@ def make_request(E, W, outcomes):
         k = E.choice('execute_outcome', outcomes)
         state['outcome'] = k
         if k == 'raises':
-            raise E.Raised('ValueError')
+            # what a datastore (a user-supplied context / block included) fails with: any Exception other than the two the front-ends
+            # reserve for "no such unit"
+            raise E.Raised(E.choice('datastore_failure', ['ValueError', 'KeyError', 'IndexError', 'IOError']))
         code = fc if k == 'normal' else fc + 128
         return E.obj('pymodbus.pdu.ModbusResponse', transaction_id=0, protocol_id=0, unit_id=0, skip_encode=False, check=0, function_code=code,
                      should_respond=(should if k == 'normal' else True), encode=E.callback(lambda: payload, 'encode'))
@@ -152,9 +154,9 @@ def serve_unicast(fe, prop, clauses=ALL_CLAUSES, finding=None):
         E.prove('%s:executed-exactly-once-against-the-addressed-unit' % prop, L.And(len(W.executed) == 1, hosted, W.executed[0] == want_ctx))
         oc = info['state'].get('outcome')
         if oc == 'raises':
-            E.prove('%s:datastore-failure->exception-04' % prop, L.And(len(W.sent) == 1, L.eq(W.sent[0][0], expected_frame(req, info, info['fc'] + 128, [0x04]))))
+            E.prove('%s:datastore-failure->exception-04' % prop, len(W.sent) == 1 and L.eq(W.sent[0][0], expected_frame(req, info, info['fc'] + 128, [0x04])))
         elif oc == 'exception':
-            E.prove('%s:one-response-echoing-ids' % prop, L.And(len(W.sent) == 1, L.eq(W.sent[0][0], expected_frame(req, info, info['fc'] + 128, info['payload']))))
+            E.prove('%s:one-response-echoing-ids' % prop, len(W.sent) == 1 and L.eq(W.sent[0][0], expected_frame(req, info, info['fc'] + 128, info['payload'])))
         else:
             fk = {'finding': finding, 'region': L.Not(info['should'])} if (fe == 'twisted.udp' and finding) else {}
             if len(W.sent) == 0:
